@@ -7,7 +7,20 @@ SOURCES = ['src/opus.c', 'src/opus_decoder.c', 'src/opus_private.h', 'include/op
 RULE = ('exhaustive enumeration of header shapes (representative TOC per code and frame duration x count/length '
         'byte classes x two further header bytes x fill byte x total length) in both framings, plus '
         'serialiser-driven structured packets with mutations; a case is distinct by its (op, outcome kind) class')
-NOT_COVERED = []
+NOT_COVERED = ['the correspondence run compares RESULTS (every out-parameter) of opus_packet_parse_impl, not its intermediates: that each '
+               'logged `let` of the instrumented parser parseImplT (OpusModel/FramingTrace.lean) is the C expression named next to it '
+               '(src/opus.c line cited) is a reading of the source; what is proved is that parseImplT computes parseImpl and that '
+               'its logs fit 32 / 16 bits (instrumented_parser_is_parser, int_ranges_of_parser)',
+               'opus_packet_get_nb_samples / opus_packet_get_samples_per_frame are stated for the five API rates 8/12/16/24/48 kHz '
+               'only; the size == NULL / out_toc == NULL / frames == NULL call variants of opus_packet_parse_impl and the public '
+               'wrapper opus_packet_parse are covered by the correspondence run only',
+               'has_lbrr_value states WHICH bits of the first frame byte opus_packet_has_lbrr returns; that these are the LBRR flags '
+               'the SILK decoder reads (after n VAD flags per channel) is C09 lbrr_flag_position, not re-proved here']
+TRUSTED = ['which C expression of opus_packet_parse_impl each logged intermediate of the instrumented model parser parseImplT stands '
+           'for (src/opus.c line numbers cited in OpusModel/FramingTrace.lean and OpusProofs/FramingRange.lean): the correspondence '
+           'run checks results, not intermediates',
+           'the table `table2` in OpusProps/C06.lean is RFC 6716 Table 2 transcribed by hand (mode, bandwidth, frame duration per '
+           'configuration number)']
 ASSUMPTIONS = ['len argument equals the length of the supplied buffer (the harness uses exact-size heap blocks under ASan)']
 
 
@@ -45,12 +58,15 @@ def classify(ctx, tie, mm):
 
 LEVEL_TEXT = ('full proof: the Lean transcription of opus_packet_parse_impl is proved sound and complete against a '
               'declarative RFC 6716 section 3 / Appendix B serialiser spec for every byte string in both framings, with all '
-              'reported offsets in bounds; the transcription is tied to the code by exhaustive header-shape enumeration and '
+              'reported offsets in bounds; the TOC / packet helpers are stated by value (RFC Table 2 written out, frame and sample '
+              'counts in both framings with the 120 ms rule, the LBRR flag bits); the transcription is tied to the code by exhaustive header-shape enumeration and '
               'structured fuzz with exact comparison of every out-parameter under ASan/UBSan')
 LEVEL_NOTE = ('trusted: Lean kernel; the correspondence harness and line protocol; bytes modelled as naturals < 256, C int '
               'arithmetic as unbounded Int, justified by the range theorems int_ranges / int16_stores_lossless / '
-              'int16_truncated_store_rejected for every len < 2^31 (the trace functions of OpusProofs/FramingRange.lean that '
-              'list the C intermediates are read against src/opus.c by hand)')
+              'int16_truncated_store_rejected for every len < 2^31; the traced values are the logs of the instrumented parser '
+              'parseImplT, proved to compute parseImpl itself and evaluated by the driver for every `parse` case of the '
+              'correspondence run (instrumented_parser_is_parser); which C expression each logged value stands for is read '
+              'against src/opus.c by hand')
 TECHNIQUE = 'Lean 4 theorem (soundness+completeness vs. RFC serialiser spec) + differential correspondence'
 
 REQUIRED_THEOREMS = ['OpusProps.C06.parse_complete', 'OpusProps.C06.parse_sound', 'OpusProps.C06.parse_accepts_iff',
@@ -59,5 +75,11 @@ REQUIRED_THEOREMS = ['OpusProps.C06.parse_complete', 'OpusProps.C06.parse_sound'
                      'OpusProps.C06.encodeSize_eq_spec', 'OpusProps.C06.helpers_agree',
                      'OpusProps.C06.nb_frames_agrees', 'OpusProps.C06.has_lbrr_reads_only_packet',
                      'OpusProps.C06.int_ranges', 'OpusProps.C06.int16_stores_lossless',
-                     'OpusProps.C06.int16_truncated_store_rejected']
+                     'OpusProps.C06.int16_truncated_store_rejected',
+                     # value-level statements of the helpers (Table 2, frame / sample counts in both framings, LBRR bit), the
+                     # length coding as RFC content, and the range theorems on the instrumented parser itself
+                     'OpusProps.C06.toc_helpers_table2', 'OpusProps.C06.nb_frames_spec', 'OpusProps.C06.nb_frames_agrees_any',
+                     'OpusProps.C06.nb_samples_of_parse', 'OpusProps.C06.nb_samples_invalid_iff', 'OpusProps.C06.has_lbrr_value',
+                     'OpusProps.C06.has_lbrr_err', 'OpusProps.C06.encode_size_roundtrip',
+                     'OpusProps.C06.instrumented_parser_is_parser', 'OpusProps.C06.int_ranges_of_parser']
 UNPROVED = []
